@@ -24,8 +24,19 @@ pub fn run(args: &[String]) -> i32 {
     let mut panics: BTreeMap<String, u64> = BTreeMap::new();
     let mut per_tag: BTreeMap<String, u64> = BTreeMap::new();
     let mut samples: Vec<Value> = Vec::new();
-    for line in f.lines().map_while(|l| l.ok()) {
-        let c: Value = match serde_json::from_str(&line) { Ok(v) => v, Err(_) => continue };
+    let all: Vec<Value> = f.lines().map_while(|l| l.ok()).filter_map(|l| serde_json::from_str(&l).ok()).collect();
+    // field types whose typical content the library writes back character for character: for those the generator's
+    // spelling is the library's canonical one (field 25 gains a slash, 37H is written with four decimals: not those)
+    let mut canonical_tags: std::collections::BTreeSet<String> = Default::default();
+    for c in &all {
+        if c["l"] != "" { continue; }
+        let tag = c["tag"].as_str().unwrap_or("");
+        let content: String = c["s"].as_array().map(|a| a.iter().filter_map(|x| x.as_str()).collect::<Vec<_>>().concat()).unwrap_or_default();
+        if let Ok(Some(Ok(o))) = guarded(|| parse_by_tag(tag, &content)) {
+            if lf(&o.ser) == format!(":{}:{}", tag, content) { canonical_tags.insert(tag.to_string()); }
+        }
+    }
+    for c in all {
         let tag = c["tag"].as_str().unwrap_or("");
         let label = c["l"].as_str().unwrap_or("");
         let content: String = c["s"].as_array().map(|a| a.iter().filter_map(|x| x.as_str()).collect::<Vec<_>>().concat()).unwrap_or_default()
@@ -82,11 +93,24 @@ pub fn run(args: &[String]) -> i32 {
                 let structural = label.split(" & ").all(|d| {
                     let atom = d.rsplit('.').next().unwrap_or("");
                     d.is_empty() || ["min", "max", "absent", "1line", "maxlines", "code-other"].contains(&atom) || d.ends_with("lastline.max")
-                        || atom.ends_with("-max") || (atom.starts_with("alt") && atom[3..].chars().all(|c| c.is_ascii_digit()) && atom.len() > 3)
+                        || atom.ends_with("-max") || atom == "AMT-maxc" || (atom.starts_with("alt") && atom[3..].chars().all(|c| c.is_ascii_digit()) && atom.len() > 3)
                         || atom.starts_with("mid=")
                 });
                 if want && structural && !content.contains('<') {
                     let parts: Vec<String> = c["p"].as_array().map(|a| a.iter().map(|x| x.as_array().map(|cs| cs.iter().filter_map(|y| y.as_str()).collect::<Vec<_>>().concat()).unwrap_or_default()).collect()).unwrap_or_default();
+                    // a content in the library's canonical spelling is reproduced character for character
+                    // (numbers are written back padded, so a deviation in a numeric component is another spelling)
+                    let int_comps: Vec<usize> = crate::comps::bindings(tag).iter().filter(|b| b.2 == crate::comps::Kind::Int).map(|b| b.0).collect();
+                    let canonical = canonical_tags.contains(tag) && label.split(" & ").all(|d| {
+                        let k: usize = d.split('.').next().and_then(|x| x.parse().ok()).unwrap_or(0);
+                        !d.ends_with("AMT-max") && !d.ends_with("AMT0-max") && !int_comps.contains(&k)
+                    });
+                    if canonical && !parts.is_empty() && lf(&o.ser) != format!(":{}:{}", tag, content) {
+                        let mut r = replay.clone();
+                        r["detail"] = json!({"ser": o.ser});
+                        let e = c03.entry(format!("C03|Field{}|not-reproduced|{}", tag, lab)).or_insert((0, r));
+                        e.0 += 1;
+                    }
                     if !parts.is_empty() {
                         c03_evaluated += 1;
                         for (k, key, kind) in crate::comps::bindings(tag) {
@@ -111,7 +135,8 @@ pub fn run(args: &[String]) -> i32 {
                         let body = lf(&o.ser);
                         let body = body.strip_prefix(&format!(":{}:", tag)).unwrap_or(&body).to_string();
                         let mut it = body.chars();
-                        let kept = content.chars().all(|c| it.by_ref().any(|d| d == c));
+                        // (line endings are the library's to normalise: CR LF reads as LF)
+                        let kept = lf(&content).chars().all(|c| it.by_ref().any(|d| d == c));
                         if !kept {
                             hit(format!("C05|Field{}|accepted-but-altered|{}", tag, lab), json!({"ser": o.ser}));
                         }
